@@ -151,4 +151,95 @@ example : VarRanked (faultyEternalSys true) (fun v => v) ∧
     · simp [faultyEternalSys, faultySys, hv] at hf
   · simp [request, run, runE, faultyEternalSys, faultySys, lookup, purge, St.init, Sys.slot]
 
+
+/-! ## arbitrary sequences of failing and succeeding requests
+
+`z` is the rule system with no fault armed; every step of a history runs under a system `a` with
+the same rules and ANY set of armed faults (`FewerFaults a z`): faults are armed and removed
+between requests at will.  `requestsF` runs such a history on one simulation. -/
+
+/-- what a step of a history may be -/
+def FaultyVersion (a z : Sys P) : Prop := FewerFaults a z ∧ a.ckey = z.ckey ∧ 1 ≤ a.msl
+
+/-- what the statement asks of the answer `r` to a request `k` made while the system is `a` -/
+def StepOK (z : Sys P) (n : Nat) (st : Sys P × Node P) (r : Res) : Prop :=
+  (∀ x, r = .ok x → ∃ m, den z m st.2.1 st.2.2 = some (.ok x)) ∧
+  (∀ x, den st.1 n st.2.1 st.2.2 = some (.ok x) → r = .ok x)
+
+/-- … of the answers to a whole history, in order (one answer per request) -/
+def StepsOK (z : Sys P) (n : Nat) : List (Sys P × Node P) → List Res → Prop
+  | [], [] => True
+  | st :: sts, r :: rs => StepOK z n st r ∧ StepsOK z n sts rs
+  | [], _ :: _ => False
+  | _ :: _, [] => False
+
+/-- For variable-ranked systems, ANY history of requests under ANY sequence of armed-fault sets,
+    from any consistent state: (1) a value is never wrong — whatever a request returns as a value
+    is the fault-free meaning of its node (values completed before a failure remain correct, and
+    are served); (2) a request whose meaning under the faults armed at that moment is a value
+    returns exactly that value, whatever failed before ("once the cause is removed the same
+    request succeeds with the right value", and "every later request behaves as on a simulation
+    where the failed request was never made": the answer does not depend on the history);
+    (3) after every request the stack is empty, nothing is marked, and the store holds nothing
+    but fault-free meanings (no value is recorded for a computation that did not complete). -/
+theorem C18_any_fault_sequence (z : Sys P) (hk : SlotCoherent z) (rk : Nat → Nat) (hr : VarRanked z rk) (n : Nat) :
+    ∀ (steps : List (Sys P × Node P)), (∀ st ∈ steps, FaultyVersion st.1 z) →
+    ∀ (s : St P), Cons z s.cache → s.stack = [] → s.inval = [] →
+    ∀ rs s', requestsF n s steps = some (rs, s') →
+      StepsOK z n steps rs ∧ Cons z s'.cache ∧ s'.stack = [] ∧ s'.inval = [] := by
+  intro steps
+  induction steps with
+  | nil =>
+    intro _ s hc hs hi rs s' h
+    simp only [requestsF, Option.some.injEq, Prod.mk.injEq] at h
+    obtain ⟨rfl, rfl⟩ := h
+    exact ⟨trivial, hc, hs, hi⟩
+  | cons st sts ih =>
+    intro hall s hc hs hi rs s' h
+    obtain ⟨hab, hck, hmsl⟩ := hall st List.mem_cons_self
+    simp only [requestsF] at h
+    cases hreq : request st.1 n s st.2 with
+    | none => rw [hreq] at h; cases h
+    | some res =>
+      obtain ⟨r, g, s1⟩ := res
+      rw [hreq] at h
+      simp only at h
+      obtain ⟨hc1, hs1, hi1, hv, hcomp⟩ := request_faulty st.1 z hab hck hk rk hr hmsl n s hc hs hi st.2 r g s1 hreq
+      cases hrest : requestsF n s1 sts with
+      | none => rw [hrest] at h; cases h
+      | some res2 =>
+        obtain ⟨rs2, s2⟩ := res2
+        rw [hrest] at h
+        simp only [Option.some.injEq, Prod.mk.injEq] at h
+        obtain ⟨rfl, rfl⟩ := h
+        obtain ⟨hf, hc2, hs2, hi2⟩ := ih (fun st' hst' => hall st' (List.mem_cons_of_mem _ hst')) s1 hc1 hs1 hi1 rs2 s2 hrest
+        exact ⟨⟨⟨hv, hcomp⟩, hf⟩, hc2, hs2, hi2⟩
+
+/-- Hence the answer to a request whose meaning (under the faults armed when it is made) is a value
+    does not depend on what was requested, failed or succeeded, before: after ANY two histories it
+    is that value. -/
+theorem C18_history_irrelevant (z : Sys P) (hk : SlotCoherent z) (rk : Nat → Nat) (hr : VarRanked z rk) (n : Nat)
+    (h₁ h₂ : List (Sys P × Node P)) (hv₁ : ∀ st ∈ h₁, FaultyVersion st.1 z) (hv₂ : ∀ st ∈ h₂, FaultyVersion st.1 z)
+    (a : Sys P) (ha : FaultyVersion a z) (k : Node P) (x : Val) (hd : den a n k.1 k.2 = some (.ok x))
+    (rs₁ rs₂ : List Res) (s₁ s₂ : St P)
+    (e₁ : requestsF n St.init h₁ = some (rs₁, s₁)) (e₂ : requestsF n St.init h₂ = some (rs₂, s₂))
+    (r₁ r₂ : Res) (g₁ g₂ : Bool) (t₁ t₂ : St P)
+    (q₁ : request a n s₁ k = some (r₁, g₁, t₁)) (q₂ : request a n s₂ k = some (r₂, g₂, t₂)) :
+    r₁ = .ok x ∧ r₂ = .ok x := by
+  obtain ⟨hc0, hs0, hi0⟩ := C01_init_consistent z
+  obtain ⟨_, c1, st1, i1⟩ := C18_any_fault_sequence z hk rk hr n h₁ hv₁ St.init hc0 hs0 hi0 rs₁ s₁ e₁
+  obtain ⟨_, c2, st2, i2⟩ := C18_any_fault_sequence z hk rk hr n h₂ hv₂ St.init hc0 hs0 hi0 rs₂ s₂ e₂
+  obtain ⟨hab, hck, hmsl⟩ := ha
+  exact ⟨(request_faulty a z hab hck hk rk hr hmsl n s₁ c1 st1 i1 k r₁ g₁ t₁ q₁).2.2.2.2 x hd,
+         (request_faulty a z hab hck hk rk hr hmsl n s₂ c2 st2 i2 k r₂ g₂ t₂ q₂).2.2.2.2 x hd⟩
+
+/-- the history "fail, then succeed after the fault is removed" of `faultySys`: the hypotheses are
+    met and the answers are the error, then the value -/
+example : FaultyVersion (faultySys true) (faultySys false) ∧ FaultyVersion (faultySys false) (faultySys false) ∧
+    requestsF 5 St.init [(faultySys true, (1, 0)), (faultySys false, (1, 0))] =
+      some ([.error .fault, .ok [11]], ⟨[((1, 0), ([11], false))], [], []⟩) := by
+  refine ⟨⟨⟨rfl, rfl, rfl, rfl, rfl, rfl, ?_⟩, rfl, by decide⟩, ⟨⟨rfl, rfl, rfl, rfl, rfl, rfl, fun _ h => h⟩, rfl, by decide⟩, ?_⟩
+  · intro id h; simp [faultySys] at h
+  · simp [requestsF, request, run, runE, faultySys, lookup, store, purge, St.init, Sys.slot]
+
 end OFCore
